@@ -30,6 +30,7 @@ class State:
     def __init__(self, ctx):
         self.ctx = ctx
         self.expect = None  # explicit (variables, constraints, keymask) for directly driven backends
+        self.expect_key_names = None  # names of the keys the DRIVER registered (independent of Solver.is_answer_key)
         self.events = 0
         self.fired = 0
         self.last_event = None
@@ -172,6 +173,8 @@ def check_exchange(st, backend, mode, ret, keymask_arg=None):
             return
     else:
         wantk = sorted(name_of(v) for v, k in zip(variables, keymask) if k)
+        if st.expect_key_names is not None and via_solver:
+            wantk = sorted(st.expect_key_names)
         if p.keys is None or sorted(p.keys) != wantk:
             _viol(st, "keyline-differs", f"key line {p.keys} != registered keys {wantk}", backend, text, reply)
             return
